@@ -469,8 +469,8 @@ impl Monitor for C11 {
         N_DIRECTED
             + match t {
                 Tier::Tiny => 12,
-                Tier::Quick => 8_000,
-                Tier::Thorough => 120_000,
+                Tier::Quick => 480000,
+                Tier::Thorough => 4800000,
             }
     }
     fn rule(&self) -> &'static str {
